@@ -120,10 +120,12 @@ def value_items(c, name, f, depth, rng):
         out += [meta(name, "nv", "i:5"), meta(name, "nv", "s:7"), meta(name, "nv", "i:300")]
     elif k == "bool":
         out += [meta(name, "word"), meta(name, "nv", "b:false"), meta(name, "nv", "s:x")]
+    elif k == "flag":
+        out += [meta(name, "word"), meta(name, "list"), meta(name, "nv", "b:true")]
     elif k == "recv":
         sub = c.decls[t["id"] - 1]
         out += [meta(name, "list", items=s) for s in nested_inputs(c, sub, sub["rename_all"], depth - 1, rng)]
-        out += [meta(name, "word"), meta(name, "nv", "s:v1")]
+        out += [meta(name, "word"), meta(name, "nv", "s:v1"), meta(name, "junk")]
     elif k == "enum":
         e = c.decls[t["id"] - 1]
         rule = enum_rule(e)
@@ -138,6 +140,7 @@ def value_items(c, name, f, depth, rng):
                 sub = c.decls[v["sid"] - 1]
                 for s in nested_inputs(c, sub, rule, depth - 1, rng)[:4]:
                     out.append(meta(name, "list", items=[meta(vn, "list", items=s)]))
+                out.append(meta(name, "list", items=[meta(vn, "junk")]))
             elif v["style"] == "newtype":
                 out.append(meta(name, "list", items=[meta(vn, "nv", "s:v1")]))
                 out.append(meta(name, "list", items=[meta(vn, "nv", "i:5")]))
@@ -145,7 +148,7 @@ def value_items(c, name, f, depth, rng):
                 out.append(meta(name, "list", items=[meta(vn, "nv", "s:v1")]))
         first = e["variants"][0]
         fn = first["rename"] or variant_case(rule, first["rust"])
-        out += [meta(name, "nv", "s:zz"), meta(name, "word"), meta(name, "list"), meta(name, "nv", "i:5"),
+        out += [meta(name, "nv", "s:zz"), meta(name, "word"), meta(name, "list"), meta(name, "nv", "i:5"), meta(name, "junk"),
                 meta(name, "list", items=[lit("s:x")]), meta(name, "list", items=[meta("zz", "word")])]
         if writable(fn):
             out.append(meta(name, "list", items=[meta(fn, "word"), meta(fn, "word")]))
@@ -157,7 +160,7 @@ def value_items(c, name, f, depth, rng):
                 meta(name, "list", items=[meta("k1", "nv", "s:v1"), meta("k1", "nv", "s:v2")]),
                 meta(name, "list", items=[meta("k1", "nv", "i:5"), meta("k1", "nv", "s:v2"), lit("s:x")]),
                 meta(name, "list", items=[meta("k2", "nv", "i:5")]),
-                meta(name, "word")]
+                meta(name, "word"), meta(name, "junk")]
     return out
 
 
@@ -237,7 +240,7 @@ def nested_inputs(c, s, rule, depth, rng):
 def build(seed, tier, focus='all'):
     rng = random.Random(seed)
     c = Corpus()
-    V, O, U, B = ty("val"), ty("opt"), ty("u8"), ty("bool")
+    V, O, U, B, F = ty("val"), ty("opt"), ty("u8"), ty("bool"), ty("flag")
 
     def vec():
         return ty("vec")
@@ -319,6 +322,10 @@ def build(seed, tier, focus='all'):
     root([field("name", V), field("hidden_one", V, skip=True), field("rest", ty("recv", flat_mid), flatten=True)])
     root([field("first_name", O), field("rest", ty("recv", flat_inner), flatten=True)], rename_all="camelCase", cdefault="fn")
 
+    # --- hostile-input roots (C07): flags, nested receivers / enums / maps fed bodies that are not meta syntax
+    root([field("verbose", F), field("strict", F), field("other", O)], max_items=2)
+    root([field("inner", ty("recv", leaf_fn)), field("e", ty("enum", e_word)), field("table", ty("map"), default="trait"), field("quiet", F)],
+         max_items=2)
     # --- element-level roots --------------------------------------------------------------------
     for i, tr in enumerate(ELEMENT_TRAITS):
         kw = dict(trait=tr, attr_names=["x"], max_items=3, max_attrs=3)
@@ -333,6 +340,11 @@ def build(seed, tier, focus='all'):
                  attrs_field="plain", magic_ident=True, rename_all="camelCase")
     root([field("name", V), field("rest", ty("recv", flat_inner), flatten=True)], trait="FromDeriveInput",
          attr_names=["x"], max_items=3, max_attrs=2)
+    # nothing read, nothing forwarded, yet an `attrs` member
+    root([field("max_volume", V, default="trait")], trait="FromDeriveInput", attr_names=[], forward="empty", attrs_field="plain",
+         max_items=1, max_attrs=2)
+    root([field("max_volume", V, default="trait")], trait="FromField", attr_names=[], forward="empty", attrs_field="plain",
+         max_items=1, max_attrs=2)
     root([field("e", ty("enum", e_mixed)), field("other", O)], trait="FromField", attr_names=["x"], max_items=2, max_attrs=2)
     root([field("max_volume", V), field("sk", V, skip=True)], trait="FromDeriveInput", attr_names=["x"], cdefault="from_ident",
          max_items=2, max_attrs=2, magic_ident=True)
@@ -392,7 +404,8 @@ def build(seed, tier, focus='all'):
         is_elem = d["trait"] != "FromMeta"
         has_enum = any(f["ty"]["k"] == "enum" for f in d["fields"])
         keep = {"all": True, "struct": not is_elem and not has_enum, "element": is_elem, "enum": has_enum,
-                "suggest": not is_elem, "clean": True}[focus]
+                "suggest": not is_elem, "clean": True,
+                "hostile": any(f["ty"]["k"] in ("enum", "flag", "recv", "map") for f in d["fields"]) or d["attrs_field"] != "none"}[focus]
         d["entry"] = True      # stays in the dispatch table whatever the focus
         d["root"] = keep
     # quick tier: element-level roots get 2 attributes x 2 items, except the first two per trait-independent
@@ -444,6 +457,10 @@ def is_good(c, s, rule, it):
         if f["skip"] or eff_field(rule, f) != it["name"]:
             continue
         k = "val" if f["multiple"] else f["ty"]["k"]
+        if it["form"] == "junk":
+            return False
+        if k == "flag":
+            return it["form"] == "word"
         if k in ("val", "opt"):
             return it["form"] == "nv" and it["val"].startswith("s:") and it["val"] != "s:bad"
         if k == "u8":
@@ -499,6 +516,8 @@ def rust_ty(c, t, f=None):
         return "bool"
     if k == "map":
         return "HashMap<String, Val>"
+    if k == "flag":
+        return "darling::util::Flag"
     return c.decls[t["id"] - 1]["ident"]
 
 
@@ -556,6 +575,8 @@ def render_struct(c, d, out):
         co.append("forward_attrs")
     if d["forward"] == "only":
         co.append("forward_attrs(%s)" % ", ".join(d["forward_names"]))
+    if d["forward"] == "empty":
+        co.append("forward_attrs()")
     out.append("#[derive(Debug, Clone, darling::%s)]" % d["trait"])
     if co:
         out.append("#[darling(%s)]" % ", ".join(co))
